@@ -1,5 +1,9 @@
-"""C06 — session machine check (see harness/sess_checks.py, Model/Session.lean, Props/C06.lean)."""
+"""C06 — session machine check (see harness/sess_checks.py, Model/Session.lean, Props/C06.lean), plus the lifetimes on a transport
+with write flow control (harness/flow_scen.py: pause_writing / resume_writing / connection_lost delivered around and after the close)."""
+import json
+
 import sess_checks
+import flow_scen
 
 DRIVER = 'drv_C05'
 LEAN_TARGETS = ['NasdaqModel.Props.C06', 'drv_C05']
@@ -7,7 +11,13 @@ LEAN_TARGETS = ['NasdaqModel.Props.C06', 'drv_C05']
 
 def run(ctx):
     sess_checks.run_family(ctx, 'C06')
+    flow_scen.run_flow(ctx, 'C06')
 
 
 def replay(ctx, path):
-    sess_checks.replay_family(ctx, 'C06', path)
+    r = json.load(open(path))
+    rep = r.get('replay') or (r.get('no_longer_checks') or [{}])[-1].get('case') or r
+    if 'flow_scenario' in rep:
+        flow_scen.replay_flow(ctx, 'C06', rep)
+    else:
+        sess_checks.replay_family(ctx, 'C06', path)
